@@ -378,6 +378,7 @@ func vfC02World(c *vfC02Conf, reg func(method, url string, h http.HandlerFunc)) 
 	}
 	if c.WithLog {
 		wc.WithLogStats = true
+		wc.QLogSentinel = true
 		wc.QLogMemSize = 100
 		wc.HTTPRegister = reg
 	}
@@ -624,6 +625,13 @@ func vfC02CheckLog(t *rapid.T, c *vfC02Conf, handlers map[string]http.HandlerFun
 	if err := json.Unmarshal(rec.Body.Bytes(), &doc); err != nil {
 		t.Fatalf("querylog API: bad json: %v", err)
 	}
+	data := doc.Data[:0]
+	for _, d := range doc.Data {
+		if name, _ := d.Question["name"].(string); name != vfSentinelHost {
+			data = append(data, d)
+		}
+	}
+	doc.Data = data
 	if len(doc.Data) != 1 {
 		t.Fatalf("querylog: %d entries after one query, want 1: %s", len(doc.Data), rec.Body.String())
 	}
